@@ -191,6 +191,8 @@ def run_job(job, keep_graph=False):
     else:
         g.warmup(gs0, jit_step=jit_step)
     out = dict(episodes=[], obs=[], finished=False, exc=None, calls=[])
+    if job.get("digest"):
+        S.digest_fn = lambda en: _digest(g, S, en, out)
 
     def user():
         try:
@@ -289,7 +291,8 @@ def run_job(job, keep_graph=False):
         task_errors=[(a, b, c) for a, b, c, _ in S.task_errors],
         task_error_tb=[d for _, _, _, d in S.task_errors][:2],
         thread_errors=[(t.name, repr(t.exc), getattr(t, "exc_tb", "")) for t in S.threads if t.exc is not None],
-        points=[(n, c) for n, c, _ in S.points],
+        points=[(n, c) for n, c, _, _ in S.points],
+        digests=[d for _, _, _, d in S.points] if job.get("digest") else None,
         n_points=len(S.points),
         n_steps=S.n_steps,
         sig=hash(tuple(S.sig)) & 0xFFFFFFFF,
@@ -305,6 +308,40 @@ def run_job(job, keep_graph=False):
         res["_nodes"] = nodes
         res["_gs0"] = gs0
     return res
+
+
+def _digest(g, S, en, out):
+    """Abstract state of the implementation at a decision point: program counters of every virtual thread (rex frames),
+    what each thread is about to do, and the shared lifecycle state. Used to prune the schedule tree: two prefixes that
+    reach the same abstract state have the same futures (as far as the lifecycle handshake is concerned)."""
+    import sys as _sys
+
+    frames = _sys._current_frames()
+    th = []
+    for t in S.threads:
+        fr = frames.get(t.t.ident)
+        pcs = []
+        while fr is not None:
+            fn = fr.f_code.co_filename
+            if fn.endswith("asynchronous.py") or fn.endswith("asyncx.py"):
+                pcs.append((fr.f_code.co_name, fr.f_lineno))
+            fr = fr.f_back
+        pend = t.pending
+        pend = (pend[0],) + tuple(x for x in pend[1:] if isinstance(x, str)) if pend else None
+        th.append((t.name, t.done, t.enabled(), pend, tuple(pcs)))
+    sh = []
+    for nm, w in g._async_nodes.items():
+        cap = lambda x: x if (x is None or x < 4) else 4  # noqa: counters saturate (the handshake does not depend on their value)
+        sh.append((nm, str(w._state), cap(w._tick), cap(len(w.q_tick or ())), cap(len(w.q_ts_scheduled or ())), cap(len(w.q_ts_end_prev or ())), cap(len(w.q_ts_start or ())), cap(len(w._record_steps or ())),
+                   tuple(getattr(x[1], "__name__", "?") for x in list(w._executor.q)[:4]), w._eps, getattr(w, "_step_state", None) is None))
+        for i, c in w.inputs.items():
+            sh.append((nm, i, str(c._state), cap(c._tick), cap(len(c.q_msgs or ())), cap(len(c.q_ts_input or ())), cap(len(c.q_expected_select or ())), cap(len(c.q_grouped or ())), cap(len(c.q_ts_next_step or ())),
+                       cap(len(c.q_zip_delay or ())), cap(len(c.q_zip_msgs or ())), tuple(getattr(x[1], "__name__", "?") for x in list(c._executor.q)[:4])))
+    sy = g._synchronizer
+    qa, qo = list(getattr(sy, "_q_act", ())), list(getattr(sy, "_q_obs", ()))
+    sh.append(("sync", getattr(sy, "_must_reset", None), min(len(qa), 3), tuple(f._state for f in qa[-2:]), min(len(qo), 3), tuple(f._state for f in qo[:1] + qo[-1:]),
+               getattr(getattr(sy, "_f_act", None), "_state", None), getattr(getattr(sy, "_f_obs", None), "_state", None), g._initial_step, tuple(out["calls"])))
+    return hash((tuple(th), tuple(sh), tuple(t.name for t in en)))
 
 
 def _dump_queues(g):
